@@ -75,6 +75,27 @@ def scope(repo):
     return out, reg
 
 
+def _reads_handed_data(f, assert_node):
+    """does the assert's condition read a parameter of the function (other than self) or a local computed from one?"""
+    own = f.node
+    for q, g in f.module.funcs.items():
+        if any(x is assert_node for x in ast.walk(g.node)) and (own is f.node or len(q) > len(f.qualname)):
+            own = g.node if len(q) >= len(f.qualname) else own
+    params = {p.lstrip("*") for p in A.params_of(own)} - {"self", "cls"}
+    bound = set()
+    for c in ast.walk(assert_node.test):
+        if isinstance(c, ast.comprehension):
+            bound |= {x.id for x in ast.walk(c.target) if isinstance(x, ast.Name)}
+        elif isinstance(c, ast.Lambda):
+            bound |= {a.arg for a in c.args.args}
+    deps = Deps(own)
+    clo = deps.closure()
+    for nm in A.names_loaded(assert_node.test) - bound:
+        if nm in params or (clo.get(nm, set()) & params):
+            return True
+    return False
+
+
 def run(ctx):
     repo = ctx.repo
     fns, reg = scope(repo)
@@ -110,6 +131,10 @@ def run(ctx):
                 n_assert += 1
                 if (f.relpath, f.qualname) in ASSERT_EXCEPTIONS:
                     ctx.holds(r1, f"{f.relpath}::{f.qualname}: {A.short(n, 50)}", "explained exception: " + ASSERT_EXCEPTIONS[(f.relpath, f.qualname)])
+                elif not _reads_handed_data(f, n):
+                    # an assertion over the object's own bookkeeping documents an invariant of the code; the specification
+                    # reaches this code through the function's parameters only
+                    ctx.holds(r1, f"{f.relpath}::{f.qualname}: {A.short(n, 50)}", "asserts an invariant of the object's own state: no data handed to the function is tested")
                 else:
                     ctx.violated(r1, f, n, "a consistency condition on specification-derived data is only guarded by an assert: it raises AssertionError (not a pyhf exception) and vanishes under `python -O`", expected="raise pyhf.exceptions.InvalidModifier/InvalidModel", node=n)
     ctx.extra["raise_sites"] = n_raise
@@ -201,7 +226,7 @@ def run(ctx):
         else:
             ctx.violated(r4, fin or b, "bin-count check", f"{b.name} consumes per-bin modifier data but does not compare its length with the sample's bin count (its sibling builders do): a wrong-length modifier is accepted or fails with a foreign exception", expected="if len(nom_data) != len(<modifier data>): raise InvalidModifier", node=(fin or b).node)
     nb = repo.method(PDF, "_nominal_builder", "append")
-    okn = any(isinstance(n, ast.If) and "len(" in A.unparse(n.test) and "channel_nbins" in A.unparse(n.test) and any(_exc(r) == "InvalidModel" for r in ast.walk(n) if isinstance(r, ast.Raise)) for n in ast.walk(nb.node))
+    okn = any(isinstance(n, ast.If) and "len(" in A.unparse(n.test) and "channel_nbins" in A.unparse(A.expand_locals(nb.node, n.test)) and any(_exc(r) == "InvalidModel" for r in ast.walk(n) if isinstance(r, ast.Raise)) for n in ast.walk(nb.node))
     if okn:
         ctx.holds(r4, f"{PDF}::_nominal_builder.append", "sample length vs channel_nbins -> InvalidModel")
     else:
